@@ -2,7 +2,7 @@
 Budgets are resource limits (deterministic), wall-clock limits are only a generous backstop."""
 import multiprocessing as mp, subprocess, tempfile, os, time, re
 import z3
-Z3_CONFIGS = [("z3-ematch", {"smt.mbqi": False, "smt.auto_config": False}), ("z3-default", {})]
+Z3_CONFIGS = [("z3-ematch", {"smt.mbqi": False, "smt.auto_config": False}), ("z3-default", {}), ("z3-ematch-auto", {"smt.mbqi": False})]
 
 def _z3(smt, opts, rlimit, timeout_ms):
     s = z3.Solver(); s.set("timeout", timeout_ms); s.set("rlimit", rlimit)
@@ -21,6 +21,7 @@ def work(job):
     name, smt, rlimit, timeout_ms, use_cvc5, both = job; t0 = time.time()
     status, backend, second = "unknown", None, None
     if _z3(smt, Z3_CONFIGS[0][1], rlimit, timeout_ms) == "unsat": status, backend = "proved", "z3-ematch"
+    elif _z3(smt, Z3_CONFIGS[2][1], rlimit // 2, timeout_ms // 2) == "unsat": status, backend = "proved", "z3-ematch-auto"
     if both or (status != "proved" and use_cvc5):
         r = _cvc5(smt, min(timeout_ms, 30000)); second = r
         if status != "proved" and r == "unsat": status, backend = "proved", "cvc5"
